@@ -8,6 +8,12 @@ TB_M1 = ['vm/tracer.go is modelled by hand (Artela/Model/CallTree.lean, StateCha
          'association lists, pointers as arena ids; tied by the op-sequence correspondence through the exported Tracer API']
 
 PROPS = {
+    'C16': {
+        'modules': ['Artela.Props.C16'],
+        'runs': [{'layer': 'tracer'}],
+        'trusted_base': TB_M1 + ['Go map iteration order is an explicit adversarial permutation argument of every query that ranges over a map'],
+        'assumptions': ['NewEVM allocates a fresh tracer per EVM (generated fact) and no package-level tracer state exists'],
+    },
     'C07': {
         'modules': ['Artela.Props.C07'],
         'runs': [{'layer': 'tracer'}],
